@@ -589,7 +589,12 @@ namespace hgraph
         void run_storage(Storage &state, Advance advance)
         {
             validate_times(state.start_time, state.end_time);
-            state.stop_requested.store(false, std::memory_order_release);
+            // A stop request is consumed by the run it ends. Clearing the flag
+            // here, at the start, discarded a request_stop() that raced the
+            // beginning of run() from another thread - an idle graph without an
+            // end_time then never returned.
+            auto consume_stop_request = make_scope_exit(
+                [&]() noexcept { state.stop_requested.store(false, std::memory_order_release); });
             state.set_evaluation_time(state.start_time);
 
             auto graph = state.graph.view();
